@@ -11,6 +11,12 @@
              lost=<id@k,…> senders=<pc,…> falseClose=<0|1> deadWrite=<0|1> parked=<0|1>
         → stuck <i> <action>
 
+    notify-variant                            → reconnectFirst | guardFirst   (order of the tests in onPush)
+    notify-run <reconnectFirst|guardFirst|tree> <action>…   (adapter-level model, Model/AdapterPush.lean)
+        actions: setCallback · pNotify.<g> · pPush.<g>.<payload> · recv.<i> · send.<id>
+        → ok gen=<n> sends=<id@gen,…> stale=<ids sent to a client whose notification was processed>
+             pushed=<payload,…> graceClosing=<g,…>   |   stuck <i> <action>
+
   events:  B.<id> Send entered · R.<id> Send returned nil · F.<id> Send returned the write timeout ·
            C some Send passed "Send.reconnected" · T.<k> I.<k> G.<k> sender of connection k passed
            "send.top" / "send.inner" / "send.got" · X.<k> receiver k passed "recv.closing" ·
@@ -20,6 +26,7 @@
 -/
 import TarsModel.Driver.Common
 import TarsModel.Model.ClientConn
+import TarsModel.Model.AdapterPush
 
 namespace Tars.Driver.ClientConn
 open Tars Tars.Driver Tars.ClientConn
@@ -195,9 +202,57 @@ def doRun (v : Variant) (cap : Nat) (toks : List String) : String :=
     | .ok s => "ok " ++ showState s
     | .error i => s!"stuck {i} {toks.getD i "?"}"
 
+def parseNotifyAction (tok : String) : Option AdapterPush.Action :=
+  match splitDots tok with
+  | ["setCallback"] => some .setCallback
+  | ["pNotify", g] => (parseNat? g).map .pNotify
+  | ["pPush", g, d] =>
+    match parseNat? g, parseNat? d with
+    | some g, some d => some (.pPush g d)
+    | _, _ => none
+  | ["recv", i] => (parseNat? i).map .recv
+  | ["send", id] => (parseNat? id).map .send
+  | _ => none
+
+def showNats (l : List Nat) : String :=
+  if l.isEmpty then "-" else String.intercalate "," (l.map toString)
+
+def notifyVariantName : AdapterPush.Variant → String
+  | .reconnectFirst => "reconnectFirst"
+  | .guardFirst => "guardFirst"
+
+def parseNotifyVariant : String → Option AdapterPush.Variant
+  | "reconnectFirst" => some .reconnectFirst
+  | "guardFirst" => some .guardFirst
+  | "tree" => some AdapterPush.treeVariant
+  | _ => none
+
+def doNotifyRun (v : AdapterPush.Variant) (toks : List String) : String :=
+  match parseAll parseNotifyAction toks with
+  | none => "bad-op"
+  | some acts =>
+    let rec go (s : AdapterPush.State) (as : List AdapterPush.Action) (i : Nat) : Except Nat AdapterPush.State :=
+      match as with
+      | [] => .ok s
+      | a :: rest =>
+        match AdapterPush.step v s a with
+        | some s' => go s' rest (i + 1)
+        | none => .error i
+    match go AdapterPush.init acts 0 with
+    | .ok s =>
+      let stale := (s.sends.filter (fun x => x.noticed.contains x.gen)).map (fun x => x.id)
+      s!"ok gen={s.gen} sends={showPairs (s.sends.map (fun x => (x.id, x.gen)))} stale={showNats stale} " ++
+      s!"pushed={showNats s.pushed} graceClosing={showNats s.graceClosing}"
+    | .error i => s!"stuck {i} {toks.getD i "?"}"
+
 def handle (ws : List String) : String :=
   match ws with
   | ["variant"] => variantName treeVariant
+  | ["notify-variant"] => notifyVariantName AdapterPush.treeVariant
+  | "notify-run" :: v :: toks =>
+    match parseNotifyVariant v with
+    | some v => doNotifyRun v toks
+    | none => "bad-op"
   | "admits" :: v :: cap :: idle :: toks =>
     match parseVariant v, parseNat? cap, parseBool? idle with
     | some v, some cap, some idle => doAdmits v cap idle toks
